@@ -25,6 +25,9 @@ CONSTANTS Fams,                 \* family names explored by this configuration
           ForkAll,              \* TRUE: a second network may be derived from every network ; FALSE: only from from_list(0) ones
           DEV_DrawMovesVertices, \* drawing the network writes into the boundary arrays of the lanelets (a view instead of a copy):
                                 \* the first vertex of every right boundary moves towards the second one, polygon and index stay (seed C06-6)
+          DEV_RectKeepsExportedPolygon, \* the setters of a Rectangle clear the cached vertices but not the exported polygon, which is
+                                \* rebuilt only when it or the vertices are missing: export, set, read vertices, query -> old pose (seed C06-7)
+          ShapeHist,            \* TRUE: this configuration also explores the shape histories (mode "shape")
           DEV_DiscHalfRadius    \* lookups by shape use the exported disc of radius r/2 (Circle.shapely_object = buffer(radius / 2))
 
 VARIABLES fam,    \* the family under construction
@@ -38,9 +41,17 @@ VARIABLES fam,    \* the family under construction
           forked, \* "" or the kind of derivation
           apolys, \* the lanelets of the ORIGINAL network A (its truth now)
           aindex, \* A's index snapshot
-          asnap   \* A's lanelets at the moment B was derived (A's geometry must never change afterwards)
-vars == <<fam, polys, buf, index, mode, dirty, hist, forked, apolys, aindex, asnap>>
-KeepA == UNCHANGED <<forked, apolys, aindex, asnap>>
+          asnap,  \* A's lanelets at the moment B was derived (A's geometry must never change afterwards)
+          (* shape histories (mode = "shape"): one shape object, its attributes and its two caches *)
+          sphase, \* 0 fresh, 1 exported, 2 attribute set, 3 vertices read / drawn, 4 queried
+          sinit,  \* the shape as constructed
+          scur,   \* the shape its CURRENT attributes denote
+          svc,    \* cached vertices: <<>> or <<the shape they were computed from>>
+          sgc,    \* cached exported geometry: <<>> or <<the shape it was computed from>>
+          sans    \* what the last export / query answered for: <<>> or <<shape>>
+svars == <<sphase, sinit, scur, svc, sgc, sans>>
+vars == <<fam, polys, buf, index, mode, dirty, hist, forked, apolys, aindex, asnap, sphase, sinit, scur, svc, sgc, sans>>
+KeepA == UNCHANGED <<forked, apolys, aindex, asnap>> /\ UNCHANGED svars
 
 Rt(r, a) == [r |-> r, a |-> a]
 Empty    == [i \in {} |-> <<>>]
@@ -62,8 +73,15 @@ Cuts    == <<RectS(<<2, 2>>, 2, 2, Id),                                        \
              [k |-> "poly", v |-> <<<<4, 0>>, <<12, 0>>, <<12, 8>>>>],          \* triangle below the diagonal (2,0)-(6,4)
              [k |-> "disc", c |-> <<4, -3>>, r |-> 4]>>                         \* radius 2 around (2,-1.5): reaches y = 0 at 0.75 r
 
-Init == /\ fam \in Fams /\ polys = Empty /\ buf = Empty /\ index = Empty /\ mode = "new" /\ dirty = FALSE /\ hist = <<>>
+HistSeeds == <<RectS(<<5, 3>>, 4, 2, Id), RectS(<<4, 2>>, 4, 2, <<0, 1, 1>>), RectS(<<3, 1>>, 10, 10, <<3, 4, 5>>),
+               [k |-> "disc", c |-> <<3, 5>>, r |-> 8], [k |-> "poly", v |-> <<<<0, 0>>, <<8, 0>>, <<0, 8>>>>],
+               [k |-> "group", ms |-> <<RectS(<<2, 4>>, 2, 4, Id), [k |-> "disc", c |-> <<8, 4>>, r |-> 4]>>]>>
+Init == /\ polys = Empty /\ buf = Empty /\ index = Empty /\ dirty = FALSE /\ hist = <<>>
         /\ forked = "" /\ apolys = Empty /\ aindex = Empty /\ asnap = Empty
+        /\ sphase = 0 /\ svc = <<>> /\ sgc = <<>> /\ sans = <<>>
+        /\ \/ fam \in Fams /\ mode = "new" /\ sinit = <<>> /\ scur = <<>>
+           \/ ShapeHist /\ fam = (CHOOSE f \in Fams : TRUE) /\ mode = "shape"
+                        /\ \E i \in DOMAIN HistSeeds : sinit = <<HistSeeds[i]>> /\ scur = HistSeeds[i]
 
 (* a freshly built network: bookkeeping and index are made from the lanelets handed over *)
 Fresh(p)  == polys' = p /\ buf' = p /\ index' = p /\ dirty' = FALSE
@@ -90,7 +108,7 @@ More == /\ mode = "ready"
            \/ (Len(hist) = MaxRoutes /\ dirty /\ hist[1] = Rt("from_list", <<0>>))
 (* ... and one MUTATION (translate_rotate, add, remove) of a network that has just been derived from another one *)
 MoreMut == More \/ (mode = "ready" /\ Len(hist) = MaxRoutes /\ forked # "" /\ IsFork(hist[MaxRoutes]))
-LogH(r, a)     == hist' = Append(hist, Rt(r, a)) /\ UNCHANGED <<fam, mode>>
+LogH(r, a)     == hist' = Append(hist, Rt(r, a)) /\ UNCHANGED <<fam, mode>> /\ UNCHANGED svars
 LogA(r, a)     == LogH(r, a) /\ KeepA
 Log(r)         == LogA(r, <<>>)
 (* operations that REBUILD the index from the bookkeeping dictionary *)
@@ -151,7 +169,42 @@ ForkCut(c)     == /\ Fork("fork_network_cut")
                   /\ LET keep == {i \in DOMAIN polys : ShapeRel(polys[i], Cuts[c], FALSE) = "T"} IN keep # {} /\ Fresh(Restrict(polys, keep))
                   /\ LogH("fork_network_cut", <<c>>)
 ForkCopy       == Fork("fork_deepcopy") /\ polys' = polys /\ Rebuilt(buf) /\ LogH("fork_deepcopy", <<>>)         \* copy.deepcopy(A)
-Next == \/ \E c \in {0, 1} : FromList(c)
+(* ---------------- shape histories: export -> set an attribute -> (read vertices / draw) -> query ---------------- *)
+(* The contract: whatever was cached, an export / query answers for the shape the CURRENT attributes denote.          *)
+NetQuiet == UNCHANGED <<fam, polys, buf, index, mode, dirty, forked, apolys, aindex, asnap, sinit>>
+AttrsOf(s) == CASE s.k = "rect" -> {"center", "orientation", "length", "width"} [] s.k = "disc" -> {"center", "radius"}
+                [] s.k = "poly" -> {"vertices"} [] s.k = "group" -> {"center", "orientation", "length", "width"}      \* of member 1
+UpdPrim(s, at) == CASE at = "center"      -> [s EXCEPT !.c = <<@[1] + 4, @[2] - 2>>]
+                    [] at = "orientation" -> [s EXCEPT !.rot = MoveRot(1, @)]
+                    [] at = "length"      -> [s EXCEPT !.l = @ + 2]
+                    [] at = "width"       -> [s EXCEPT !.w = @ + 2]
+                    [] at = "radius"      -> [s EXCEPT !.r = @ + 4]
+                    [] at = "vertices"    -> [s EXCEPT !.v = [i \in DOMAIN @ |-> <<@[i][1] + 4, @[i][2] + 2>>]]
+Upd(s, at) == IF s.k = "group" THEN [s EXCEPT !.ms[1] = UpdPrim(@, at)] ELSE UpdPrim(s, at)
+IsRectLike(s) == s.k = "rect" \/ s.k = "group"
+(* vertices are computed from the attributes when missing; the exported geometry is built from the vertices when missing *)
+Vert        == IF svc = <<>> THEN <<scur>> ELSE svc
+Answering   == IF sgc = <<>> \/ (DEV_RectKeepsExportedPolygon /\ IsRectLike(scur) /\ svc = <<>>) THEN Vert ELSE sgc
+SExport(how) == /\ mode = "shape" /\ sphase = 0 /\ sphase' = 1
+                /\ svc' = Vert /\ sgc' = Answering /\ sans' = Answering /\ scur' = scur
+                /\ hist' = Append(hist, Rt("export", <<how>>)) /\ NetQuiet
+SSet(at)     == /\ mode = "shape" /\ sphase \in {0, 1} /\ at \in AttrsOf(scur) /\ sphase' = 2
+                /\ scur' = Upd(scur, at) /\ svc' = <<>> /\ sans' = <<>>
+                /\ sgc' = IF DEV_RectKeepsExportedPolygon /\ IsRectLike(scur) THEN sgc ELSE <<>>
+                /\ hist' = Append(hist, Rt("set_" \o at, <<>>)) /\ NetQuiet
+SRead(k)     == /\ mode = "shape" /\ sphase = 2 /\ sphase' = 3 /\ (k = 1 => scur.k # "disc")     \* 1: .vertices (a circle has none), 2: draw
+                /\ svc' = Vert /\ UNCHANGED <<scur, sgc, sans>>
+                /\ hist' = Append(hist, Rt("read", <<k>>)) /\ NetQuiet
+SQuery       == /\ mode = "shape" /\ sphase \in {2, 3} /\ sphase' = 4
+                /\ svc' = Vert /\ sgc' = Answering /\ sans' = Answering /\ scur' = scur
+                /\ hist' = Append(hist, Rt("query", <<>>)) /\ NetQuiet
+ShapeAnswers == (mode = "shape" /\ sphase \in {1, 4}) => sans = <<scur>>
+
+Next == \/ \E how \in 1..4 : SExport(how)
+        \/ \E at \in {"center", "orientation", "length", "width", "radius", "vertices"} : SSet(at)
+        \/ \E k \in {1, 2} : SRead(k)
+        \/ SQuery
+        \/ \E c \in {0, 1} : FromList(c)
         \/ AddFromNet \/ ViaScenario \/ StartAdd("add_each") \/ StartAdd("add_defer") \/ AddLanelet
         \/ DeepCopy \/ DeepCopyOrig \/ Pickle \/ ReadXml \/ ReadPb \/ ReadXmlNet \/ ReadPbNet
         \/ \E c \in DOMAIN Cuts : FromNetwork(c)
@@ -188,7 +241,7 @@ DirtyOnlyPending == (mode = "ready" /\ dirty) =>
 QueriesExact == Settled => LET N == AsNet(polys) IN
                                   /\ \A p \in ProbePts : Lookup(index, p) = ByPosition(N, p)
                                   /\ \A s \in ProbeShapes : LookupShape(index, s) = ByShape(N, s)
-TypeOK == mode \in {"new", "add_each", "add_defer", "ready"} /\ UniqueIds(FamNet(fam))
+TypeOK == mode \in {"new", "add_each", "add_defer", "ready", "shape"} /\ UniqueIds(FamNet(fam))
 
 (* laws of the functional core, evaluated on the rings / probe sets of the current state *)
 Shallow == mode = "ready" /\ Len(hist) = 1            \* the rings of deeper states are motion images / subsets of these
@@ -354,5 +407,8 @@ EmitShapes == \A i \in DOMAIN ShapeTable :       \* (mentions a variable: a cons
 EmitRoute  == PrintT(<<"CASE", ToJson([kind |-> "route", fam |-> fam, routes |-> hist, polys |-> AsNet(polys)])>>)
 Emit == /\ mode = "new" => EmitFamily
         /\ mode = "ready" => EmitRoute
-EmitS == (mode = "new" /\ fam = CHOOSE f \in Fams : TRUE) => EmitShapes
+EmitHistory == PrintT(<<"CASE", ToJson([kind |-> "history", shape |-> sinit[1], steps |-> hist, final |-> scur,
+                                         probes |-> ProbeGroups(scur), net |-> FamNet("mixed4")])>>)
+EmitS == /\ (mode = "new" /\ fam = CHOOSE f \in Fams : TRUE) => EmitShapes
+         /\ (mode = "shape" /\ sphase = 4) => EmitHistory
 =================================================================================
